@@ -232,6 +232,15 @@ func (w *World) drawSessionRef(t *rapid.T) string {
 	return "5e55ffff-ffff-4fff-8fff-ffffffffffff" // never created
 }
 
+// drawStraySession: a plain set / cas may carry a Session field (RPC and txn API pass it through); the store must
+// ignore it — the holder only changes through lock / unlock.
+func (w *World) drawStraySession(t *rapid.T) string {
+	if !chance(t, "straysession", 12) {
+		return ""
+	}
+	return w.drawSessionRef(t)
+}
+
 // DrawKV draws one KV write.
 func (w *World) DrawKV(t *rapid.T) *Op {
 	kinds := []string{KVSet, KVSet, KVCAS, KVCAS, KVDelete, KVDeleteCAS, KVDeleteTree, KVLock, KVLock, KVUnlock}
@@ -251,13 +260,13 @@ func (w *World) DrawKV(t *rapid.T) *Op {
 		if cur != nil && chance(t, "sameval", 25) { // aim at the no-op write
 			v, f = cur.Value, cur.Flags
 		}
-		return NewKV(kind, idx, key, v, f, 0, "")
+		return NewKV(kind, idx, key, v, f, 0, w.drawStraySession(t))
 	case KVCAS:
 		v, f := w.drawValue(t), w.drawFlags(t)
 		if cur != nil && chance(t, "sameval", 20) {
 			v, f = cur.Value, cur.Flags
 		}
-		return NewKV(kind, idx, key, v, f, w.drawCASIndex(t, cur), "")
+		return NewKV(kind, idx, key, v, f, w.drawCASIndex(t, cur), w.drawStraySession(t))
 	case KVDelete:
 		return NewKV(kind, idx, key, nil, 0, 0, "")
 	case KVDeleteCAS:
@@ -444,7 +453,7 @@ func (w *World) drawCheck(t *rapid.T, node, peer string, svc *structs.NodeServic
 	c := &structs.HealthCheck{
 		Node:           node,
 		CheckID:        types.CheckID(pick(t, "checkid", CheckIDs)),
-		Status:         pick(t, "status", []string{api.HealthPassing, api.HealthPassing, api.HealthWarning, api.HealthCritical, api.HealthCritical}),
+		Status:         pick(t, "status", []string{api.HealthPassing, api.HealthPassing, api.HealthPassing, api.HealthWarning, api.HealthCritical, api.HealthCritical, ""}), // "" is stored as critical
 		PeerName:       peer,
 		EnterpriseMeta: defaultEM,
 	}
@@ -591,6 +600,11 @@ func (w *World) DrawTxnKVOp(t *rapid.T) *structs.TxnOp {
 		if verb == api.KVCheckSession && d.Session == "" {
 			d.Session = w.SessPool[0]
 		}
+	case api.KVSet:
+		d.Session = w.drawStraySession(t)
+	}
+	if verb == api.KVCAS {
+		d.Session = w.drawStraySession(t)
 	}
 	return &structs.TxnOp{KV: &structs.TxnKVOp{Verb: verb, DirEnt: d}}
 }
@@ -950,6 +964,9 @@ func (w *World) DrawSessionKiller(t *rapid.T, cfg *Cfg) *Op {
 		}
 		cc := c.Clone()
 		cc.Status = api.HealthCritical
+		if chance(t, "emptystatus", 30) {
+			cc.Status = "" // stored as critical
+		}
 		cc.RaftIndex = structs.RaftIndex{}
 		if viaTxn {
 			verb := api.CheckSet
@@ -1185,6 +1202,12 @@ func (w *World) DrawTxnPlan(t *rapid.T, cfg *Cfg) *Op {
 			w.fixTxnKVOp(t, op.KV)
 		}
 		ops = append(ops, op)
+	}
+	if chance(t, "repeatop", 15) { // the same verb twice: the second one must see the effect of the first
+		src := ops[rapid.IntRange(0, len(ops)-1).Draw(t, "repeatsrc")]
+		cp := *src
+		pos := rapid.IntRange(0, len(ops)).Draw(t, "repeatpos")
+		ops = append(ops[:pos], append(structs.TxnOps{&cp}, ops[pos:]...)...)
 	}
 	if chance(t, "withfailure", 60) {
 		pos := rapid.IntRange(0, len(ops)).Draw(t, "failpos")
